@@ -18,7 +18,7 @@ func init() { register(&Spec{ID: "C20", Targets: []load.Target{load.Linux}, Run:
 
 func runC20(c *core.Ctx) {
 	runFixtures(c, "drop")
-	c.Explain("Whether the conformance suite fails on each of ~60 deviant file systems is a statement about executions (mutation adequacy) and cannot be decided without running the suite, which this family may not do. Decided are properties of the suite's own code whose violation makes it blind: (R20.1) every exported scenario func Test*(testing.TB, FSOptions) of package fstest is registered in the FS or File runner; (R20.2) every exported internal/assert helper and every FSOptions.assert* method returning bool reports through tb.Error/Errorf/Fatal* (or a helper that does) on every path that returns false, and has at least one such path; (R20.3) mode comparisons keep all bits when Constraints.FileModeMask is its zero value ('disables checks on the specified bits, defaults to checking all'); (R20.4) the final-tree comparison is an equality, not a subset test; (R20.5) the skip data is collected after the parallel subtests have run; (R20.6) package fstest writes no package-level variable outside init (the verdict depends only on the FS under test); (R20.7) no subtest closure that goes parallel captures a loop variable that is one cell shared by all iterations under the module's language version (< go1.22) — such subtests all run against the last table row and the other rows are never checked; (R20.8) the helpers comparing an error with an expected *PathError/*LinkError type-assert the error value itself and do not search its chain with errors.As; (R20.9) the harness that runs tasks concurrently starts all goroutines before it waits (no WaitGroup.Wait inside the starting loop). The property itself (acceptance of the references, rejection of deviants) is NOT claimed.")
+	c.Explain("Whether the conformance suite fails on each of ~60 deviant file systems is a statement about executions (mutation adequacy) and cannot be decided without running the suite, which this family may not do. Decided are properties of the suite's own code whose violation makes it blind: (R20.1) every exported scenario func Test*(testing.TB, FSOptions) of package fstest is registered in the FS or File runner; (R20.2) every exported internal/assert helper and every FSOptions.assert* method returning bool reports through tb.Error/Errorf/Fatal* (or a helper that does) on every path that returns false, and has at least one such path; (R20.3) mode comparisons keep all bits when Constraints.FileModeMask is its zero value ('disables checks on the specified bits, defaults to checking all'); (R20.4) the final-tree comparison is an equality, not a subset test; (R20.5) the skip data is collected after the parallel subtests have run; (R20.6) package fstest writes no package-level variable outside init (the verdict depends only on the FS under test); (R20.7) no subtest closure that goes parallel captures a loop variable that is one cell shared by all iterations under the module's language version (< go1.22) — such subtests all run against the last table row and the other rows are never checked; (R20.8) the helpers comparing an error with an expected *PathError/*LinkError type-assert the error value itself and do not search its chain with errors.As; (R20.9) the harness that runs tasks concurrently starts all goroutines before it waits (no WaitGroup.Wait inside the starting loop); (R20.10, contradiction rule) in every subtest closure, if the error of an operation of the library reaches an assertion on one path it does so on every path from the operation to the end of the subtest (skips excepted). The property itself (acceptance of the references, rejection of deviants) is NOT claimed.")
 	c.Assume("testing.TB.Error/Errorf/Fatal/Fatalf/FailNow/Fail mark the test failed")
 	c.RuleDoc("R20.1", "every scenario is registered")
 	c.RuleDoc("R20.2", "assertion helpers can fail and always report")
@@ -28,6 +28,7 @@ func runC20(c *core.Ctx) {
 	c.RuleDoc("R20.6", "no mutable package state")
 	c.RuleDoc("R20.8", "error-type comparisons assert the error's own dynamic type (no errors.As)")
 	c.RuleDoc("R20.9", "goroutines started in a loop are awaited after the loop")
+	c.RuleDoc("R20.10", "an operation's error that is asserted on some paths of a subtest is asserted on all")
 	c.RuleDoc("R20.7", "parallel subtest closures capture no loop variable shared between iterations")
 	for _, p := range c.Progs {
 		c.SetProg(p)
@@ -45,6 +46,7 @@ func runC20(c *core.Ctx) {
 		r20LoopCapture(c, p)
 		r20ErrType(c, p)
 		r20Concurrent(c, p)
+		r20ErrorAssertedOnEveryPath(c, p)
 	}
 	c.Floor("R20.1", 30)
 	c.Floor("R20.2", 15)
@@ -55,6 +57,7 @@ func runC20(c *core.Ctx) {
 	c.Floor("R20.7", 3)
 	c.Floor("R20.8", 2)
 	c.Floor("R20.9", 1)
+	c.Floor("R20.10", 100)
 }
 
 func r20Registered(c *core.Ctx, p *load.Program, pk *ssa.Package) {
@@ -548,4 +551,114 @@ func r20Concurrent(c *core.Ctx, p *load.Program) {
 				fmt.Sprintf("%s waits for its goroutines inside the loop that starts them (%s): the tasks run strictly one after another and the concurrent scenarios exercise no interleaving — a file system that fails only under overlap passes", fname(fn), bad))
 		})
 	}
+}
+
+// r20ErrorAssertedOnEveryPath (R20.10, contradiction rule): if a scenario passes the error of an operation to an
+// assertion on one path, it does so on every path from that operation to the end of the subtest (paths that skip the
+// test excepted). A branch that returns without looking at the error accepts a file system that answers the situation
+// with no error at all.
+func r20ErrorAssertedOnEveryPath(c *core.Ctx, p *load.Program) {
+	isAssert := func(cl *ssa.Call) bool {
+		callee := ssax.StaticCallee(cl)
+		if callee == nil {
+			return false
+		}
+		if callee.Pkg != nil && strings.HasSuffix(callee.Pkg.Pkg.Path(), "internal/assert") {
+			return true
+		}
+		return strings.HasPrefix(callee.Name(), "assert") || strings.HasPrefix(callee.Name(), "tryAssert")
+	}
+	for _, fn := range pkgFuncs(p, "fstest") {
+		if fn.Parent() == nil || fn.Blocks == nil {
+			continue // subtest closures only
+		}
+		ord := ordinals{}
+		for _, b := range fn.Blocks {
+			for idx, ins := range b.Instrs {
+				op, ok := ins.(*ssa.Call)
+				if !ok {
+					continue
+				}
+				callee := ssax.StaticCallee(op)
+				if callee == nil || callee.Pkg == nil || callee.Pkg.Pkg.Path() != mod || ssax.ErrorResultIndex(callee.Signature) < 0 {
+					continue
+				}
+				ev := ssax.ErrorValueOf(op)
+				if ev == nil {
+					continue
+				}
+				passes := func(s *ssax.PathState, in2 ssa.Instruction) bool {
+					cl, ok := in2.(*ssa.Call)
+					if !ok || !isAssert(cl) {
+						return false
+					}
+					for _, a := range cl.Call.Args {
+						r := s.Resolve(a)
+						if r == ev || ssax.Unwrap(r) == ev {
+							return true
+						}
+						if mi, ok := r.(*ssa.MakeInterface); ok && s.Resolve(mi.X) == ev {
+							return true
+						}
+						// the variable that holds the error, possibly normalised on the way (err = nil for an exact EOF)
+						if dependsOn(a, func(v ssa.Value) bool { return v == ev }) {
+							return true
+						}
+					}
+					return false
+				}
+				assertedSomewhere := false
+				ssax.Instrs(fn, func(in2 ssa.Instruction) {
+					if passes(ssax.NewPathState(), in2) {
+						assertedSomewhere = true
+					}
+					// through a phi (err = nil on one branch)
+					if cl, ok := in2.(*ssa.Call); ok && isAssert(cl) {
+						for _, a := range cl.Call.Args {
+							if dependsOn(a, func(v ssa.Value) bool { return v == ev }) {
+								assertedSomewhere = true
+							}
+						}
+					}
+				})
+				if !assertedSomewhere {
+					continue
+				}
+				key := fname(fn) + "|" + ord.next("error-of:"+callee.Name())
+				var badRet ssa.Instruction
+				complete := ssax.EnumPaths(fn, b, idx+1, nil, ssax.PathHooks{
+					Instr: func(s *ssax.PathState, in2 ssa.Instruction) {
+						if passes(s, in2) {
+							s.Counts["asserted"] = 1
+						}
+						// the error was reassigned: a later operation's error takes over
+						if c2, ok := in2.(*ssa.Call); ok && c2 != op {
+							if cal := ssax.StaticCallee(c2); cal != nil && (cal.Name() == "Skip" || cal.Name() == "SkipNow" || cal.Name() == "Skipf") {
+								s.Counts["asserted"] = 1
+							}
+						}
+					},
+					End: func(s *ssax.PathState, last ssa.Instruction) {
+						if s.Counts["asserted"] == 0 && badRet == nil {
+							if _, isRet := last.(*ssa.Return); isRet {
+								badRet = last
+							}
+						}
+					},
+				})
+				if !complete {
+					continue
+				}
+				c.Check(badRet == nil, "R20.10", key, p.Pos(op.Pos()), "the operation's error reaches an assertion on every path to the end of the subtest",
+					fmt.Sprintf("%s: the error of %s is passed to an assertion on some paths, but the path ending at %s leaves the subtest without looking at it: a file system that answers this situation with another kind of error — or with none — is accepted", fname(fn), ssax.CallName(op), posOf(p, badRet)))
+			}
+		}
+	}
+}
+
+func posOf(p *load.Program, ins ssa.Instruction) string {
+	if ins == nil {
+		return "-"
+	}
+	return p.Pos(ins.Pos())
 }
